@@ -1,4 +1,5 @@
 import AmVerif.Model.SyncNet
+import AmVerif.Model.SyncBound
 import AmVerif.Model.Wire
 /-
   Driver engine `sync`: one input line carries a whole schedule,
@@ -15,6 +16,7 @@ import AmVerif.Model.Wire
     r:<a>:<b>:<0|1>                        set_read_only on a's state for b
     w:<p>                                  p loses its document, all its connections drop
     q:<bound>                              quiesce: rounds of generate+deliver until a quiet round
+    b:<a>:<b>                              the C20 round bound of the pair (a,b): `Prog.missingDocs` + 4
 -/
 namespace Driver.Sync
 open AmVerif AmVerif.Wire AmVerif.Sync
@@ -136,6 +138,12 @@ def step (net : Net) (s : String) : Net × List String :=
     match p.toNat? with
     | some p => (net.loseData p, [s!"w {p}"])
     | none => bad
+  | ["b", a, b] =>
+    match a.toNat?, b.toNat? with
+    | some a, some b =>
+      let k := Prog.missingDocs (net.docs a) (net.docs b)
+      (net, [s!"b {a} {b} missing={k} bound={k + 4}"])
+    | _, _ => bad
   | ["q", bound] =>
     match bound.toNat? with
     | some bound =>
